@@ -14,12 +14,23 @@ structure SPage where
   cb : Option (List Int)
   rot : Int
   res : Option (List String)
+  /-- the same page as seen by a reader that ignores indirect attribute values -/
+  mbU : Option (List Int) := none
+  cbU : Option (List Int) := none
+  rotU : Int := 0
+  viaRef : Bool := false
 
 structure Env where
   mb : Option (List Int) := none
   cb : Option (List Int) := none
   rot : Option Int := none
   res : Option (List String) := none
+  /-- what a reader that does NOT follow indirect MediaBox / CropBox / Rotate values computes:
+  the key counts as set (it shadows the ancestors) but its value is unreadable → default -/
+  mbU : Option (List Int) := none
+  cbU : Option (List Int) := none
+  rotU : Option Int := none
+  viaRef : Bool := false
 
 /-- typed value of an attribute, `none` = not a direct, well-typed value (the strict reading
 does not pronounce on such trees) -/
@@ -45,12 +56,27 @@ def kidsStrict (g : Graph) : Kids → Option (List Nat)
     | _ => none
   | _ => none
 
+/-- an attribute value may be given indirectly (ISO 32000-1 §7.3.10: any object may be) -/
+def deref (g : Graph) : Raw → Raw
+  | .ref n => match g.get n with
+    | .raw r => r
+    | _ => .junk
+  | r => r
+
+def isRef : Option Raw → Bool
+  | some (.ref _) => true
+  | _ => false
+
 def updEnv (g : Graph) (d : Dict) (e : Env) : Option Env := do
-  let mb ← match d.mb with | none => some e.mb | some v => (boxVal v).map some
-  let cb ← match d.cb with | none => some e.cb | some v => (boxVal v).map some
-  let rot ← match d.rot with | none => some e.rot | some v => (rotVal v).map some
+  let mb ← match d.mb with | none => some e.mb | some v => (boxVal (deref g v)).map some
+  let cb ← match d.cb with | none => some e.cb | some v => (boxVal (deref g v)).map some
+  let rot ← match d.rot with | none => some e.rot | some v => (rotVal (deref g v)).map some
+  let mbU := match d.mb with | none => e.mbU | some v => if isRef (some v) then some [0, 0, 1224, 1584] else boxVal v
+  let cbU := match d.cb with | none => e.cbU | some v => if isRef (some v) then none else boxVal v
+  let rotU := match d.rot with | none => e.rotU | some v => if isRef (some v) then some 0 else rotVal v
+  let via := e.viaRef || isRef d.mb || isRef d.cb || isRef d.rot
   let res ← match d.res with | none => some e.res | some v => (resVal g v).map some
-  pure { mb := mb, cb := cb, rot := rot, res := res }
+  pure { mb := mb, cb := cb, rot := rot, res := res, mbU := mbU, cbU := cbU, rotU := rotU, viaRef := via }
 
 mutual
   /-- strict top-down traversal; state = ids already seen; `none` = not strictly well-formed -/
@@ -68,7 +94,8 @@ mutual
         | some env' =>
           match d.ty with
           | .page =>
-            some ([{ id := id, mb := env'.mb, cb := env'.cb, rot := env'.rot.getD 0, res := env'.res }], id :: seen)
+            some ([{ id := id, mb := env'.mb, cb := env'.cb, rot := env'.rot.getD 0, res := env'.res,
+                     mbU := env'.mbU, cbU := env'.cbU, rotU := env'.rotU.getD 0, viaRef := env'.viaRef }], id :: seen)
           | .pages =>
             match kidsStrict g d.kids with
             | none => none
